@@ -582,13 +582,22 @@ func (env *SpecEnv) evalCall(x *SCall) Val {
 		if env.old == nil {
 			env.fail("old() not available here")
 		}
-		return env.withState(env.old).eval(x.Args[0])
+		return env.snapshot(env.withState(env.old).eval(x.Args[0]), env.old, 0)
+	case "entry":
+		// entry(N, e): value of e when loop N was first entered
+		argn(2)
+		n, ok := x.Args[0].(*SIntLit)
+		if !ok || env.f == nil || env.f.loopEntries[int(n.V.Int64())] == nil {
+			env.fail("entry(N, e): loop N has not been entered")
+		}
+		es := env.f.loopEntries[int(n.V.Int64())]
+		return env.snapshot(env.withState(es).eval(x.Args[1]), es, 0)
 	case "pre":
 		argn(1)
 		if env.pre == nil {
 			env.fail("pre() is only available in loop asserts")
 		}
-		return env.withState(env.pre).eval(x.Args[0])
+		return env.snapshot(env.withState(env.pre).eval(x.Args[0]), env.pre, 0)
 	case "len":
 		argn(1)
 		v := env.eval(x.Args[0])
@@ -780,6 +789,14 @@ func (env *SpecEnv) sortOfName(name string) string {
 		return SStr
 	case "error":
 		return SErr
+	case "intarr", "[]uint64", "[]int", "[]int64", "[]uint16":
+		return ArrSort(SInt)
+	case "intarr2":
+		return ArrSort(ArrSort(SInt))
+	}
+	if strings.HasPrefix(name, "[]") {
+		et := env.sortOfName(name[2:])
+		return ArrSort(et)
 	}
 	t := env.in.W.lookupType(env.pkgPath, name)
 	if t == nil {
@@ -899,8 +916,48 @@ func (env *SpecEnv) callOpaqueSpecFunc(sf *SpecFunc, args []Val) Val {
 			in.D.opaqueAxiom = map[string]string{}
 		}
 		in.D.opaqueAxiom[axiom] = sf.Name
-		in.D.defines[axiom] = fmt.Sprintf("(define-fun %s (%s) %s %s)", fn, strings.Join(ps, " "), rs, bt.S)
+		kw := "define-fun"
+		if sf.Rec {
+			kw = "define-fun-rec"
+		}
+		in.D.defines[axiom] = fmt.Sprintf("(%s %s (%s) %s %s)", kw, fn, strings.Join(ps, " "), rs, bt.S)
 		in.D.declSkip[fmt.Sprintf("(declare-fun %s (%s) %s)", fn, strings.Join(sorts, " "), rs)] = true
 	}
 	return env.thawSort(App(fn, rs, ts...))
+}
+
+// snapshot freezes the heap-dependent parts of a value (slice contents, map contents,
+// pointer targets) as they are in state st, so that old(x)/pre(x)/entry(N,x) denote the
+// value x had then even when x is a view whose content is looked up later.
+func (env *SpecEnv) snapshot(v Val, st *State, depth int) Val {
+	in := env.in
+	if depth > 4 {
+		return v
+	}
+	switch x := v.(type) {
+	case SliceV:
+		c := in.newCell("snap[]", CRegion, x.Reg.Typ)
+		in.initial[c] = in.load(st, x.Reg, env.f)
+		if orig, ok := in.frozenOf[x.Reg]; ok {
+			if cur, ok2 := in.initial[c].(ArrV); ok2 && cur.T.S == App("sarr", ArrSort(SInt), orig).S {
+				in.frozenOf[c] = orig
+			}
+		}
+		return SliceV{Reg: c, Off: x.Off, Len: x.Len, Cap: x.Cap, Nil: x.Nil}
+	case MapV:
+		c := in.newCell("snap{}", CMap, x.M.Typ)
+		in.initial[c] = in.load(st, x.M, env.f)
+		return MapV{M: c, Nil: x.Nil}
+	case PtrV:
+		c := in.newCell("snap*", CVar, x.To.Typ)
+		in.initial[c] = env.snapshot(in.load(st, x.To, env.f), st, depth+1)
+		return PtrV{To: c, Nil: x.Nil}
+	case StructV:
+		nf := make([]Val, len(x.F))
+		for i, fv := range x.F {
+			nf[i] = env.snapshot(fv, st, depth+1)
+		}
+		return StructV{Typ: x.Typ, F: nf}
+	}
+	return v
 }
